@@ -407,6 +407,10 @@ def rule_plumbing(ctx):
     """SETUP is first: the head insertion really puts the frame first and keeps what was queued before."""
     from . import plumbing
     plumbing.rule_priority_insert(ctx, 'C16.b')
+    # ... and nothing but connect()'s SETUP uses the head insertion (shared C05.b): a LEASE or CANCEL inserted at the
+    # head while SETUP is still queued goes out before it
+    from .c05 import rule_b as c05b
+    c05b(ctx)
 
 
 RULES = [('C16.a', rule_a), ('C16.b', rule_b), ('C16.c', rule_c), ('C16.d', rule_d), ('C16.b', rule_plumbing)]
